@@ -47,9 +47,10 @@ def sha_files(paths, extra=""):
 GENERATORS = [("constants", "src_constants.py"), ("ast_translation", "ast_translate.py"),
               ("ast_translation_checked64", "ast_translate64.py"), ("ast_translation_posix_parser", "ast_translate_ptr.py"),
               ("ast_translation_fixed_and_format_output", "ast_translate_out.py"),
-              ("ast_translation_zone_queries", "ast_translate_zone.py")]
+              ("ast_translation_zone_queries", "ast_translate_zone.py"),
+              ("ast_translation_zone_loader", "ast_translate_load.py")]
 GENERATED = ["SrcConstants.v", "Translated.v", "Source64.v", "SourcePosix.v", "SourceFmtParse.v", "SourceDecode.v",
-             "SourceFixed.v", "SourceFmtOut.v", "SourceZone.v"]
+             "SourceFixed.v", "SourceFmtOut.v", "SourceZone.v", "SourceFmtLoop.v", "SourceFmtTM.v", "SourceLoad.v"]
 
 
 def regen_constants():
@@ -101,6 +102,7 @@ TIE_PROPERTIES = {
     "ast_translation_posix_parser": ["C16", "C12", "C09", "C01"],
     "ast_translation_fixed_and_format_output": ["C15", "C08"],
     "ast_translation_zone_queries": ["C01", "C02", "C11", "C14"],
+    "ast_translation_zone_loader": ["C01", "C12"],
 }
 
 
@@ -339,6 +341,10 @@ def run_sharded(exe, cases, workdir, tag, shards=14, env=None, timeout=3600, int
     failures: list of (global_case_index, stderr_tail) for shards that aborted.
     interleave=True deals cases round-robin (spreads expensive cases; only for
     stateless operations - zone cases stay contiguous so each shard loads few zones)."""
+    if os.sep + "driver" + os.sep in exe or exe.endswith("driver"):
+        # the extracted model is total (it cannot hang); on a loaded machine a thorough shard can need more than an
+        # hour of wall-clock time, and a timeout there would be reported as a broken check
+        timeout = max(timeout, int(os.environ.get("VERIF_DRIVER_TIMEOUT", "21600")))
     if interleave and len(cases) > 400:
         k = min(shards, (len(cases) + 199) // 200)
         parts = [cases[i::k] for i in range(k)]
